@@ -70,6 +70,11 @@ def _pow10(k):
     return 10 ** k if k >= 0 else 1.0 / (10 ** (-k))
 
 
+def _budget_left(ctx):
+    b = ctx.scratch.get("full_budget")
+    return b is None or ctx.scratch.get("full_used", 0) < b
+
+
 def format_sym(x: Sym, spec: str) -> str:
     """Model of ``format(x, spec)`` for a symbolic number."""
     ctx = current()
@@ -98,7 +103,8 @@ def format_sym(x: Sym, spec: str) -> str:
         else:
             # characters needed: sign + integer digits + tail
             room_full = width - tail            # sign + integer digits when the column is full
-            if policy == "fit" or room_full < 2:
+            signslot = 1 if sign in (" ", "+") else 0
+            if policy == "fit" or room_full < 2 or not _budget_left(ctx):
                 # assume at least one blank remains: sign+digits <= width - tail - 1
                 k = width - tail - 1
                 if k < 1:
@@ -114,6 +120,7 @@ def format_sym(x: Sym, spec: str) -> str:
                 if builtins.bool(full):
                     content = width
                     note = "full"
+                    ctx.scratch["full_used"] = ctx.scratch.get("full_used", 0) + 1
                 else:
                     ctx.assume(core.And(x < _pow10(k - 1), x > -_pow10(k - 2) if k >= 2 else x >= 0))
                     content = width - 1
@@ -129,6 +136,9 @@ def format_sym(x: Sym, spec: str) -> str:
             base = 8
         if width is None:
             content = base + 1
+        elif sign in (" ", "+") and width == base + 1:
+            content = width                  # the sign slot is always occupied: constant full width
+            note = "full"
         elif width >= base + 2:
             content = width - 1
         elif width == base + 1:
@@ -144,7 +154,7 @@ def format_sym(x: Sym, spec: str) -> str:
         if width is None:
             content = 4
         else:
-            if policy == "fit":
+            if policy == "fit" or not _budget_left(ctx):
                 k = width - 1
                 ctx.assume(core.And(x < 10 ** k, x > -(10 ** (k - 1)) if k >= 2 else x >= 0))
                 content = width - 1
@@ -156,6 +166,7 @@ def format_sym(x: Sym, spec: str) -> str:
                     content = width
                     note = "full"
                     ndigits = width
+                    ctx.scratch["full_used"] = ctx.scratch.get("full_used", 0) + 1
                 else:
                     ctx.assume(core.And(x < 10 ** (k - 1), x > -(10 ** (k - 2)) if k >= 2 else x >= 0))
                     content = width - 1
